@@ -342,11 +342,20 @@ def _candidate_values(env_inputs, ctx, model, rng, n_random=24):
                 continue
             ang = math.atan2(s, c) * D
             newv = []
+            info = env_inputs[nm]
             for var in variants:
-                for m in range(-3, 4):
+                # period shifts; those inside the declared range of the input come first
+                shifts = sorted(range(-3, 4), key=lambda m: (not ((info["lo"] is None or ang + 2 * math.pi * D * m >= info["lo"] - 1e-9)
+                                                                  and (info["hi"] is None or ang + 2 * math.pi * D * m <= info["hi"] + 1e-9)),
+                                                             abs(m)))
+                for m in shifts:
                     d = dict(var)
                     d[nm] = ang + 2 * math.pi * D * m
                     newv.append(d)
+            if len(newv) > 200:
+                # keep the candidates built from leading (in-range) shifts of every input
+                per = len(newv) // max(1, len(variants))
+                newv = [d for i, d in enumerate(newv) if i % per < max(1, 200 // max(1, len(variants)))]
             variants = newv[:200]
         if len(variants) > 1 and all(v is not None for v in base.values()):
             # the model's own VALUE of every input (it satisfies the linear path constraints, which matters when
